@@ -53,3 +53,15 @@ package policy
 //@   modifies fresh ingressRule.*, fresh egressRule.*, fresh rule.*, ipsetTable.IPSet, fresh ipsetTable.entries, elemsof(rule), fresh elemsof(ipset.Entry), fresh elemsof(interface{}), fresh elemsof(string)
 //@   loop 0 invariant inRules != nil && len(inRules.srcRules) == idx && inRules.dstIPTable != nil
 //@   loop 1 invariant eRules != nil && len(eRules.dstRules) == idx && eRules.srcIPTable != nil && (inRules != nil ==> len(inRules.srcRules) == len(np.Spec.Ingress) && inRules.dstIPTable != nil)
+
+// ---- the pod-event entry point: every installed policy has the compiled shape (established by
+// syncNetworkPolices from policyResult; stated here as the data invariant of p.policies)
+//@ pure compiledV(pl policy) bool = pl.np != nil && (pl.ingressRule != nil || pl.egressRule != nil) && (pl.ingressRule != nil ==> len(pl.ingressRule.srcRules) == len(pl.np.Spec.Ingress) && pl.ingressRule.dstIPTable != nil) && (pl.egressRule != nil ==> len(pl.egressRule.dstRules) == len(pl.np.Spec.Egress) && pl.egressRule.srcIPTable != nil)
+//@ pure tablesV(pl policy) bool = (pl.ingressRule != nil ==> forall i int {pl.ingressRule.srcRules[i]} :: 0 <= i && i < len(pl.ingressRule.srcRules) ==> pl.ingressRule.srcRules[i].ipTable != nil) && (pl.egressRule != nil ==> forall i int {pl.egressRule.dstRules[i]} :: 0 <= i && i < len(pl.egressRule.dstRules) ==> pl.egressRule.dstRules[i].ipTable != nil)
+//@ func [C18] (*PolicyManager).SyncPodIPInIPSet
+//@   requires pod != nil
+//@   requires [C18] held[lockfield(p, Mutex)] == 0
+//@   ensures [C18:no-lock-kept] held[lockfield(p, Mutex)] == 0
+//@   requires [C18] forall k int {p.policies[k]} :: 0 <= k && k < len(p.policies) ==> compiledV(p.policies[k]) && tablesV(p.policies[k])
+//@   modifies held, fresh elemsof(*v1.Namespace), fresh elemsof(interface{}), fresh policy.*
+//@   loop 0 invariant forall k int {polices[k]} :: 0 <= k && k < len(polices) ==> compiledV(polices[k]) && tablesV(polices[k])
